@@ -14,26 +14,31 @@ import (
 
 // refusalClass classifies the atom on the edge entering a DENIED site in a watermark rule; "" if not an allowed reason.
 func (s *Slashing) refusalClass(a *an.Atom, kind string) string {
+	return s.refusalClassS(a, nil, kind)
+}
+
+func (s *Slashing) refusalClassS(a *an.Atom, sub Subst, kind string) string {
 	if a == nil {
 		return ""
 	}
+	a = resolveAtom(a, sub)
 	// wrong domain
 	want := "DomainBeaconAttester"
 	if kind == "prop" {
 		want = "DomainBeaconProposer"
 	}
-	if domainAtom(a, want, false) {
+	if domainAtomS(a, sub, want, false) {
 		return "wrong domain"
 	}
 	reqIs := func(v ssa.Value, f string) bool {
-		k, ff := s.reqField(v)
+		k, ff := s.reqField(sub.Res(v))
 		return k == kind && ff == f
 	}
 	stateIs := func(v ssa.Value, f string) bool {
-		if x, ok := isConvOf(v, types.Uint64); ok {
+		if x, ok := convOfS(v, sub, types.Uint64); ok {
 			v = x
 		}
-		k, ff := s.stateField(v)
+		k, ff := s.stateField(sub.Res(v))
 		return k == kind && ff == f
 	}
 	for _, d := range s.dims(kind) {
@@ -90,51 +95,52 @@ func (c *Ctx) RefusalReasons(prop string) {
 			switch o.Const {
 			case s.DENIED:
 				nden++
-				// every edge entering the refusing block carries an allowed reason
-				if len(blk.Preds) == 0 {
-					c.R.Fail(rule, Fn(F)+":denied", c.Pos(o.Site), "an unconditional refusal", "refusals only for the listed reasons", nil)
+				isRoot := func(f *ssa.Function) bool { return f == e.fn }
+				// (1) every path to the refusal crosses an edge on which one of the listed reasons holds (in whatever frame or
+				// helper the test is written)
+				ok, wit := c.InterCut(F, o.Site, isRoot, func(a *an.Atom, sub Subst) bool {
+					cls := s.refusalClassS(a, sub, e.kind)
+					if cls != "" {
+						classes = append(classes, cls)
+					}
+					return cls != ""
+				})
+				if !ok {
+					c.R.Fail(rule, Fn(F)+":denied", c.Pos(o.Site), "a well-formed, advancing duty can be refused for a reason outside the rule", "DENIED only for: wrong domain; target <= source (not both 0); target <= recorded target; source < recorded source; slot <= recorded slot; value above 2^63-1", wit)
 					continue
 				}
-				for _, p := range blk.Preds {
-					a := edgeAtomTo(p, blk)
-					cls := s.refusalClass(a, e.kind)
-					if cls == "" {
-						c.R.Fail(rule, Fn(F)+":denied", c.Pos(o.Site), "a well-formed, advancing duty can be refused for a reason outside the rule: ["+a.String()+"]", "DENIED only for: wrong domain; target <= source (not both 0); target <= recorded target; source < recorded source; slot <= recorded slot; value above 2^63-1", nil)
-						continue
-					}
-					classes = append(classes, cls)
-					site := p.Instrs[len(p.Instrs)-1]
-					// side conditions
-					switch {
-					case cls == "target not above source":
-						x, path := an.Cut(an.CutQuery{From: an.Entry(F), Target: func(i ssa.Instruction) bool { return i == site },
-							AcceptEdge: func(b *ssa.BasicBlock, i int, at *an.Atom) bool {
-								if at == nil || at.Op != "!=" {
-									return false
-								}
-								for _, side := range [][2]ssa.Value{{at.LV, at.RV}, {at.RV, at.LV}} {
-									if k, f := s.reqField(side[0]); k == "att" && (f == "Source.Epoch" || f == "Target.Epoch") && an.IsConstInt(side[1], 0) {
-										return true
-									}
-								}
-								return false
-							}})
-						if x != nil {
-							c.R.Fail(rule, Fn(F)+":genesis", c.Pos(o.Site), "the genesis attestation (source 0, target 0) is refused as 'target not above source'", "target <= source refused only if not both are 0", an.PathString(c.Pos, path))
+				// (2) side conditions: a refusal that rests on 'target <= source' also passed a non-zero test, and one that rests
+				// on a comparison with a recorded value also passed [recorded value >= 0]
+				if e.kind == "att" {
+					ok, wit := c.InterCut(F, o.Site, isRoot, func(a *an.Atom, sub Subst) bool {
+						if cls := s.refusalClassS(a, sub, e.kind); cls != "" && cls != "target not above source" {
+							return true
 						}
-					case strings.Contains(cls, "recorded"):
-						// only when something is recorded: below [state >= 0]
-						var fld string
-						for _, d := range s.dims(e.kind) {
-							if strings.HasPrefix(cls, d.Name+" ") {
-								fld = d.StateFld
+						at := resolveAtom(a, sub)
+						if at == nil || at.Op != "!=" {
+							return false
+						}
+						for _, side := range [][2]ssa.Value{{at.LV, at.RV}, {at.RV, at.LV}} {
+							if k, f := s.reqField(sub.Res(side[0])); k == "att" && (f == "Source.Epoch" || f == "Target.Epoch") && an.IsConstInt(side[1], 0) {
+								return true
 							}
 						}
-						x, path := an.Cut(an.CutQuery{From: an.Entry(F), Target: func(i ssa.Instruction) bool { return i == site },
-							AcceptEdge: func(b *ssa.BasicBlock, i int, at *an.Atom) bool { return s.nonNegAtom(at, e.kind, fld) }})
-						if x != nil {
-							c.R.Fail(rule, Fn(F)+":first-duty", c.Pos(o.Site), "a duty can be refused by comparison with a watermark that does not exist yet (-1 compared as a number)", "comparison only below [recorded value >= 0]", an.PathString(c.Pos, path))
+						return false
+					})
+					if !ok {
+						c.R.Fail(rule, Fn(F)+":genesis", c.Pos(o.Site), "the genesis attestation (source 0, target 0) is refused as 'target not above source'", "target <= source refused only if not both are 0", wit)
+					}
+				}
+				for _, d := range s.dims(e.kind) {
+					d := d
+					ok, wit := c.InterCut(F, o.Site, isRoot, func(a *an.Atom, sub Subst) bool {
+						if cls := s.refusalClassS(a, sub, e.kind); cls != "" && !(strings.Contains(cls, "recorded") && strings.HasPrefix(cls, d.Name+" ")) {
+							return true
 						}
+						return s.nonNegAtomS(a, sub, e.kind, d.StateFld)
+					})
+					if !ok {
+						c.R.Fail(rule, Fn(F)+":first-duty", c.Pos(o.Site), "a duty can be refused by comparison with a watermark that does not exist yet (-1 compared as a number): "+d.Name, "comparison only below [recorded value >= 0]", wit)
 					}
 				}
 			case s.FAILED:
